@@ -9,7 +9,7 @@ from pedal.core.report import MAIN_REPORT
 from pedal.core.feedback import Feedback
 from pedal.core import commands as C
 from pedal.core.scoring import Score
-from pedal.resolvers import simple, full
+from pedal.resolvers import simple, full, sectional
 
 
 class neg_fb(Feedback):
@@ -68,6 +68,7 @@ def snap(f, i, active):
             'else': bool(f.else_message), 'correct': bool(f.correct),
             'score': None if f.score is None else str(f.score), 'score_type': type(f.score).__name__,
             'negative': f.valence == Feedback.NEGATIVE_VALENCE, 'valence': f.valence,
+            'parent': f.parent if isinstance(f.parent, (str, int)) or f.parent is None else 'object',
             'has_message': f.message is not None, 'message': f.message, 'title': f.title, 'fields': fields}
 
 
@@ -114,15 +115,14 @@ def run_case(case):
     snaps_ignored = [dict(snap(o, ids[id(o)], False), spec=spec_index[id(o)]) for o in R.ignored_feedback if id(o) in ids]
     out = {'active': snaps_active, 'ignored': snaps_ignored, 'ctor_errors': ctor_errors,
            'suppressions': repr(R.suppressions), 'suppressed_labels': repr(R.suppressed_labels)}
-    try:
-        final = simple.resolve(R) if rep is not None else simple.resolve()
+    def describe(final):
         used = final.used[0] if final.used else None
-        out['simple'] = {
+        return {
             'used': ids.get(id(used)) if used is not None else None,
             'title': final.title, 'message': final.message, 'label': final.label, 'category': final.category,
             'correct': final.correct, 'success': final.success, 'json_correct': final.to_json()['correct'],
             'score': frac(final.score), 'score_raw': repr(final.score), 'scores': list(final._scores),
-            'positives': [ids[id(p)] for p in final.positives],
+            'positives': [ids[id(p)] for p in final.positives if id(p) in ids],
             'is_default': final.label == final.DEFAULT_NO_FEEDBACK_LABEL and final.category == 'complete'
                           and not final.hide_correctness,
             'hide': bool(final.hide_correctness),
@@ -132,8 +132,17 @@ def run_case(case):
                              C.set_correct.title, C.set_correct.message_template],
             'resolved_scores': {ids[id(o)]: o.resolved_score for o in objs},
         }
+    try:
+        final = simple.resolve(R) if rep is not None else simple.resolve()
+        out['simple'] = describe(final)
     except Exception as e:
         out['simple'] = {'raise': type(e).__name__, 'msg': str(e)[:200]}
+    # the sectional resolver: the same choice, made separately among the feedback of each parent
+    try:
+        finals = sectional.resolve(R) if rep is not None else sectional.resolve()
+        out['sectional'] = [[g if isinstance(g, (str, int)) or g is None else 'object', describe(f)] for g, f in finals.items()]
+    except Exception as e:
+        out['sectional'] = {'raise': type(e).__name__, 'msg': str(e)[:200]}
     try:
         final2 = full.resolve(R) if rep is not None else full.resolve()
         out['full'] = {'used': [ids[id(u)] for u in final2.used], 'label': final2.label, 'correct': final2.correct}
